@@ -30,8 +30,18 @@ Signal ids 0 and 3 stand for SIGKILL and SIGSTOP (ids ascend with the signal num
 iteration order of `std::set<int>`): `sigaction` fails on them.
 The order in which `onSignal` walks its snapshot (pointer order of a `std::set<SignalSubscribuer*>`) is an oracle
 argument of `pass`; theorems quantify over every oracle.
-Not modelled (see props/C04/plugin.py ASSUMPTIONS): the capacity of the pipe (64 KiB = 16384 undelivered
-signals), `SA_SIGINFO` combined with `SIG_IGN`, scripts acting on events of another loop (another thread).
+Round 4: (a) the signal pipe is created with `pipe2(O_CLOEXEC | O_NONBLOCK)`: the handler's `write()` never blocks; it
+fails with EAGAIN when the pipe is full (`capOf`: 64 KiB = 16384 numbers, 4 KiB = 1024 after `F_SETPIPE_SZ`) and the
+handler IGNORES the result (`(void)wsize`): that loop loses that delivery, the other loops and the chained old handler
+do not.  A 4-byte write to a pipe is atomic (POSIX, <= PIPE_BUF): the kernel's answers are `ok` or an error, never a
+short count; `raiseW` takes the set of loops whose write is answered with an (injected) error as an oracle.
+(b) `onSignal`'s `read()` answers are an oracle of `passC`: `some c` = c numbers (1..10, a short read), `none` = an
+error (EINTR/EIO/...: the loop logs and leaves, the content stays in the pipe for the next pass).
+(c) callback scripts act on events of ANY loop (the call is made on the thread of the loop that runs the callback).
+(d) signal ids 6.. stand for SIGRTMAX (valid), 65, INT_MAX, 0, a negative number and 32 (reserved by glibc): `sigaction`
+fails with EINVAL on all but the first (`sigValid`).
+Not modelled (see props/C04/plugin.py ASSUMPTIONS): `SA_SIGINFO` combined with `SIG_IGN`; deliveries concurrent with a
+subscription change are modelled at step level in `Conc.lean`.
 -/
 namespace Tbox.C04
 
@@ -76,9 +86,9 @@ def del (x : Nat) (l : List Nat) : List Nat := l.filter (fun y => y != x)
 def upd {β : Type} (f : Nat → β) (k : Nat) (v : β) : Nat → β := fun i => if i = k then v else f i
 
 /-- `sigaction(g, …)` succeeds (ids 0 / 3 = SIGKILL / SIGSTOP: EINVAL) -/
-def sigValid (g : Nat) : Bool := g != 0 && g != 3
+def sigValid (g : Nat) : Bool := g != 0 && g != 3 && decide (g < 7)
 
-/-- what a callback script may do (to events of its own loop) -/
+/-- what a callback script may do (to events of any loop) -/
 inductive Act where
   | enable (j : Nat) | disable (j : Nat) | destroy (j : Nat)
   | init (j : Nat) (sigs : List Nat) (oneshot : Bool)
@@ -128,8 +138,12 @@ structure State where
   nEv     : Nat := 0
   calls   : List (Nat × Nat) := []      -- (handler id, signo)
   cbs     : List Cb := []
+  small   : Bool := false               -- the signal pipes are shrunk to one page (`F_SETPIPE_SZ 4096`)
 
 def init : State := {}
+
+/-- how many 4-byte signal numbers a signal pipe holds (64 KiB by default, one page when shrunk) -/
+def capOf (s : State) : Nat := if s.small then 1024 else 16384
 
 def subsOf (s : State) (l g : Nat) : List Nat := ((s.subs l).find g).getD []
 def ctxOf (s : State) (g : Nat) : Ctx := (s.ctxs g).getD {}
@@ -256,8 +270,12 @@ def appendPipes (pipe : Nat → List Nat) (g : Nat) (fds : List Nat) : Nat → L
 inductive RaiseOut where | killed | ignored | handled
 deriving DecidableEq, Repr
 
-/-- delivery of signal g to the process -/
-def raise (s : State) (g : Nat) : State × RaiseOut :=
+/-- the handler's `write(fd, &signo, 4)` to loop l's pipe succeeds: no injected error and the pipe is not full -/
+def wrOk (s : State) (wf : List Nat) (l : Nat) : Bool := !wf.contains l && decide ((s.pipe l).length < capOf s)
+
+/-- delivery of signal g to the process; `wf` = the loops whose pipe write is answered with an error by the kernel
+(EAGAIN / EINTR / EIO ... — the handler does not look at the result) -/
+def raiseW (s : State) (g : Nat) (wf : List Nat) : State × RaiseOut :=
   match (s.os g).kind with
   | .dfl => (s, .killed)            -- default action: terminate (the harness does not raise)
   | .ign => (s, .ignored)
@@ -268,19 +286,23 @@ def raise (s : State) (g : Nat) : State × RaiseOut :=
     let calls := match c.old.kind with
       | .handler h => (h, g) :: s.calls
       | _ => s.calls
-    ({ s with ctxs := upd s.ctxs g (some c), calls := calls, pipe := appendPipes s.pipe g c.fds }, .handled)
+    ({ s with ctxs := upd s.ctxs g (some c), calls := calls,
+              pipe := appendPipes s.pipe g (c.fds.filter (wrOk s wf)) }, .handled)
+
+/-- delivery of signal g, every write answered by the real pipe -/
+def raise (s : State) (g : Nat) : State × RaiseOut := raiseW s g []
 
 /-- a list as the `std::set` it denotes -/
 def dedup : List Nat → List Nat
   | [] => []
   | x :: xs => ins x (dedup xs)
 
-/-- one action of a callback script running on loop l: only events of that loop (that thread) -/
-def act (fx : Fixes) (s : State) (l : Nat) : Act → State
-  | .enable j => if (s.evs j).loop = l then (enable fx s j).1 else s
-  | .disable j => if (s.evs j).loop = l then (disable s j).1 else s
-  | .destroy j => if (s.evs j).loop = l then (destroy s j).1 else s
-  | .init j sg o => if (s.evs j).loop = l then (initEv fx s j (dedup sg) o).1 else s
+/-- one action of a callback script running on loop l (on l's thread): an API call on an event of any loop -/
+def act (fx : Fixes) (s : State) (_l : Nat) : Act → State
+  | .enable j => (enable fx s j).1
+  | .disable j => (disable s j).1
+  | .destroy j => (destroy s j).1
+  | .init j sg o => (initEv fx s j (dedup sg) o).1
 
 def runScript (fx : Fixes) (s : State) (l : Nat) : List Act → State
   | [] => s
@@ -333,6 +355,33 @@ def passLoop (fx : Fixes) (l : Nat) (ord : List Nat) : Nat → State → State
 def pass (fx : Fixes) (s : State) (l : Nat) (ord : List Nat) : State :=
   passLoop fx l ord ((s.pipe l).length + 1) s
 
+/-- the kernel's answer to one `read(signal_read_fd_, …, 40)`: `none` = an error other than "empty", `some c` = c numbers
+(clamped to 1..10; fewer than 10 with more pending = a short read) -/
+def chunkLen : Option Nat → Nat
+  | none => 0
+  | some c => max 1 (min c 10)
+
+/-- how many numbers the next `read()` delivers -/
+def nextLen : List (Option Nat) → Nat
+  | [] => 10
+  | c :: _ => chunkLen c
+
+/-- `CommonLoop::onSignal` with the answers `cs` of its successive `read()` calls (10 numbers each once `cs` is used up) -/
+def passLoopC (fx : Fixes) (l : Nat) (ord : List Nat) : List (Option Nat) → Nat → State → State
+  | _, 0, s => s
+  | cs, fuel + 1, s =>
+    if !s.hasPipe l then s else
+    match s.pipe l with
+    | [] => s
+    | items =>
+      let n := nextLen cs
+      if n = 0 then s else      -- rsize <= 0, errno != EAGAIN: LogWarn, break — nothing is consumed
+      let s1 := { s with pipe := upd s.pipe l (items.drop n) }
+      passLoopC fx l ord cs.tail fuel (passChunk fx s1 l ord (items.take n))
+
+def passC (fx : Fixes) (s : State) (l : Nat) (ord : List Nat) (cs : List (Option Nat)) : State :=
+  passLoopC fx l ord cs ((s.pipe l).length + 1) s
+
 inductive Op where
   | newEv (l : Nat) (script : List Act)
   | init (e : Nat) (sigs : List Nat) (oneshot : Bool)
@@ -342,6 +391,9 @@ inductive Op where
   | setDisp (g : Nat) (d : Disp)
   | raise (g : Nat)
   | pass (l : Nat) (ord : List Nat)
+  | raiseW (g : Nat) (wf : List Nat)
+  | passC (l : Nat) (ord : List Nat) (cs : List (Option Nat))
+  | setCap (small : Bool)
 deriving Repr, DecidableEq
 
 /-- the histories the property quantifies over: `initialize` is given a set; the user installs ordinary
@@ -352,6 +404,8 @@ def valid (s : State) : Op → Bool
   | .init _ sigs _ => decide sigs.Nodup
   | .setDisp _ d => decide (d.kind ≠ .tbox)
   | .pass _ ord => decide ord.Nodup
+  | .passC _ ord _ => decide ord.Nodup
+  | .setCap _ => s.nEv == 0       -- `F_SETPIPE_SZ` is applied to every signal pipe at its creation
   | _ => true
 
 def step (fx : Fixes) (s : State) : Op → State
@@ -363,6 +417,9 @@ def step (fx : Fixes) (s : State) : Op → State
   | .setDisp g d => (setDisp s g d).1
   | .raise g => (raise s g).1
   | .pass l ord => pass fx s l ord
+  | .raiseW g wf => (raiseW s g wf).1
+  | .passC l ord cs => passC fx s l ord cs
+  | .setCap b => { s with small := b }
 
 def exec (fx : Fixes) (s : State) : List Op → Option State
   | [] => some s
